@@ -267,23 +267,44 @@ add("parse_finish", "h_expand.c", "h_parse_finish", {"C05": "quick", "C07": "qui
     bounds="last input block of 1..2 words with 0..3 padding bytes; parser start word, stop position (0..15 bits left) and garbage count (0/16/32) symbolic",
     assumptions=EXP_ASM + ["parse() stub: consumes all available words, leaves <16 bits, reports FINISH with the given garbage count"])
 
-# ------------------------------------------------------------------------------- C08: the same harnesses with CBMC's UB checks on
-import copy as _copy
-_UB_BASES = ["delta_window", "delta_start", "tree_symbol_L5_W2_A5", "emit_crc_n4", "parse_nw3_blk1", "parse_nw3_ecrc2", "parse_nw3_stream1",
-             "collect_len1_m9_all", "collect_len2_m6_rs3", "collect_inline_L5_s0f", "collect_inline_L5_s07", "xread_fill", "xwrite_short",
-             "reorder_checks", "parse_finish", "heap_ops", "rg_transmit", "rg_collect", "rg_reorder", "dfa_big", "sniff"]
-_UB_QUICK = ["delta_window", "delta_start", "tree_symbol_L5_W2_A5", "parse_nw3_blk1", "collect_len1_m9_all", "collect_inline_L5_s07", "xread_fill", "xwrite_short",
-             "reorder_checks", "parse_finish", "heap_ops", "rg_transmit", "rg_collect", "rg_reorder", "dfa_big", "sniff"]
-for _o in list(OBLIGATIONS):
-    if _o.name in _UB_BASES:
-        _u = _copy.copy(_o)
-        _u.name = _o.name + "_ub"
-        _u.ub = True
-        _u.props = {"C08": "quick" if _o.name in _UB_QUICK else "thorough"}
-        _u.timeout = 900
-        _u.bounds = _o.bounds + "; run with CBMC's standard checks (array bounds, pointer validity incl. use after free, signed overflow, undefined shifts, division by zero) in addition to the functional assertions"
-        _u.outside = list(_o.outside) + ["pointer-overflow (forming an out-of-bounds pointer without dereferencing it) is not checked", "decisions on uninitialised memory are visible only as functional failures of the twin obligation"]
-        OBLIGATIONS.append(_u)
+# ------------------------------------------------------------------------------- compress.c scheduler
+COMP_ASM = ["codec entry points (collect/encode/transmit) replaced by contract stubs; collect consumes an arbitrary non-empty prefix",
+            "pthread primitives are no-ops; the scheduler lock is owned by the harness",
+            "RG steps: the state at every lock acquisition is arbitrary subject to the monitor invariant INV of h_compress.c (rely); C12 (all shared state accessed under the lock) is assumed"]
+def comp_ob(name, entry, props, bounds, funcs, wit, unwind=12, to=600, real_heap=False, **kw):
+    add(name, "h_compress.c", entry, props, cbmc=["--unwind", str(unwind)], backend="kissat", timeout=to, mem_gb=8, object_bits=10,
+        extra_src=[("process.c", ["-include", "/verif/harness/proc_rename.h"])] if real_heap else [], defines=(["-DREAL_HEAP"] if real_heap else []) + list(kw.pop("defines", [])),
+        functions=funcs + (["src/process.c:up_heap", "src/process.c:down_heap"] if real_heap else []) + ["src/process.h:pqueue macros"], bounds=bounds,
+        assumptions=COMP_ASM + ([] if real_heap else ["up_heap()/down_heap() replaced by a bag with correct head extraction in this query (order inside the queue is irrelevant to the invariant); the real helpers are checked by heap_ops"]),
+        witnesses=wit, **kw)
+for _nb, _tier in ((2, "quick"), (3, "thorough")):
+  comp_ob("stream_frame" if _nb == 2 else "stream_frame_3blk", "h_stream_frame", {"C02": _tier, "C03": _tier, "C18": _tier, "C11": _tier, "C01": _tier},
+        "two streams in one process, levels 1..9 each, first stream 1..%d blocks with arbitrary CRCs arriving at the reorder queue in any rotation, second stream empty or one block" % _nb,
+        ["src/compress.c:init", "src/compress.c:uninit", "src/compress.c:write_header", "src/compress.c:write_trailer", "src/compress.c:can_reorder", "src/compress.c:do_reorder", "src/encode.h:combine_crc"],
+        ["blocks_arrive_out_of_order", "second_stream_written", "empty_second_stream"], real_heap=True, defines=["-DNBLK=%d" % _nb], to=1800)
+RGP = {"C11": "quick", "C13": "quick", "C03": "quick"}
+RGB = "worker count symbolic 1..3 (slot totals 2w / 2w+2), all counters, queue sizes and queue contents arbitrary subject to INV; one task execution with re-havoc at every lock release"
+comp_ob("rg_transmit", "h_rg_transmit", RGP, RGB, ["src/compress.c:can_transmit", "src/compress.c:do_transmit"], ["transmit_enabled", "transmit_on_reserved_slot"])
+comp_ob("rg_reorder", "h_rg_reorder", RGP, RGB, ["src/compress.c:can_reorder", "src/compress.c:do_reorder"], ["reorder_enabled"])
+comp_ob("rg_collect", "h_rg_collect", RGP, RGB, ["src/compress.c:can_collect", "src/compress.c:do_collect"], ["collect_enabled", "input_block_split"])
+comp_ob("rg_write_complete", "h_rg_write_complete", RGP, RGB, ["src/compress.c:on_write_complete"], ["write_completes"])
+comp_ob("rg_input_avail", "h_rg_input_avail", RGP, RGB, ["src/compress.c:on_input_avail"], ["input_block_arrives"])
+comp_ob("terminate_guard", "h_terminate_guard", {"C11": "quick"}, RGB, ["src/compress.c:can_terminate"], ["terminates"])
+comp_ob("heap_ops", "h_heap_ops", {"C11": "quick", "C03": "quick", "C10": "quick"}, "binary heap of <=5 elements with arbitrary positions satisfying the heap order; one insertion or one removal",
+        [], ["heap_insert", "heap_remove"], real_heap=True)
+
+# ------------------------------------------------------------------------------- expand.c block-level checks
+EXP_ASM = ["codec entry points (parse/scan/retrieve/decode/emit) replaced by contract stubs", "scheduler lock and I/O threads stubbed (single-threaded query); heap helpers replaced by a bag with correct head extraction (real helpers: heap_ops)"]
+add("reorder_checks", "h_expand.c", "h_reorder_checks", {"C05": "quick", "C15": "quick", "C07": "quick", "C06": "quick"}, cbmc=["--unwind", "20"], backend="kissat", timeout=300, mem_gb=6,
+    functions=["src/expand.c:do_reorder", "src/expand.c:can_reorder", "src/expand.c:init", "src/process.h:deque/pqueue macros"],
+    witnesses=["fatal_error_reported", "bogus_candidate_dropped", "partial_block_written", "block_accepted"],
+    bounds="one finished output block against one parsed block header; positions, both CRCs, block size, status (every enum value) and level symbolic (complete for this step)",
+    assumptions=EXP_ASM)
+add("parse_finish", "h_expand.c", "h_parse_finish", {"C05": "quick", "C07": "quick", "C09": "quick"}, cbmc=["--unwind", "20"], backend="kissat", timeout=300, mem_gb=6,
+    functions=["src/expand.c:do_parse (FINISH branch)", "src/expand.c:attach", "src/expand.c:detach", "src/expand.c:advance", "src/expand.c:bits_init", "src/expand.c:on_input_avail", "src/expand.c:can_parse", "src/expand.c:init"],
+    witnesses=["fatal_error_reported", "end_inside_a_padded_word_accepted", "garbage_word_given_back"],
+    bounds="last input block of 1..2 words with 0..3 padding bytes; parser start word, stop position (0..15 bits left) and garbage count (0/16/32) symbolic",
+    assumptions=EXP_ASM + ["parse() stub: consumes all available words, leaves <16 bits, reports FINISH with the given garbage count"])
 
 add("emit_step", "h_emit.c", "h_emit_step", {"C09": "quick", "C05": "quick", "C06": "quick", "C01": "quick"}, defines=["-DNB=4", "-DVMAX=2", "-DMB=3"], extra_src=["crctab.c"],
     cbmc=["--unwind", "14", "--unwindset", "emit.0:4,emit.1:4,emit.2:4,emit.3:4,emit.4:5"], backend="kissat", timeout=600, mem_gb=6, functions=EMIT_FUNCS,
@@ -298,3 +319,40 @@ add("emit_step_long", "h_emit.c", "h_emit_step", {"C09": "quick", "C05": "thorou
     bounds="ONE emit() call from each of the six resume states, remaining count 0..6, IBWT list of 6 entries (byte values 0..1), output buffer of 1..5 bytes (long enough to run through a whole counted run inside the main loop)",
     assumptions=["the six resume states are interpreted as (pending byte, previous byte, run length so far, copies left) - pre-state constructor of h_emit_step"],
     outside=["count bytes above 1 / buffers above 5 bytes per call"])
+
+# one prefix symbol of the MTF-value stage (run accumulation, flush, block overflow, end-of-block checks)
+for _sy, _nm in enumerate(("runa", "runb", "byte", "eob")):
+    add("symbol_step_" + _nm, "h_tree.c", "h_symbol_step", {"C05": "quick", "C06": "quick", "C07": "quick"},
+        defines=["-DVERIF_MAX_CODE_LENGTH=4", "-DVERIF_HUFF_START_WIDTH=2", "-DVERIF_MAX_BLOCK_SIZE=4", "-DNA=5", "-DSYM=%d" % _sy], extra_src=["crctab.c"],
+        cbmc=["--unwind", "18", "--unwindset", "h_symbol_step.0:257,h_symbol_step.2:65"], backend="kissat", timeout=300, mem_gb=4,
+        functions=["src/decode.c:retrieve (state S_PREFIX: symbol lookup, zero-run accumulation, run flush, end-of-block checks)", "src/decode.c:mtf_one", "src/decode.c:make_tree"],
+        witness_mode="any",
+        bounds="SCALED build (MAX_BLOCK_SIZE=4, MAX_CODE_LENGTH=4, HUFF_START_WIDTH=2): one prefix symbol (%s; one query per symbol class) from an arbitrary run state "
+               "(run length, shift, fill level of the block, primary index symbolic), freshly initialised inverse-MTF list" % _nm,
+        assumptions=["fixed complete 4-symbol code built by the real make_tree(); input word concrete per symbol class (only its leading code bits are examined)",
+                     "run-state invariant: run >= 2^shift - 1, and the last accepted RUN symbol found run <= MAX_BLOCK_SIZE (established by this step)"],
+        outside=["inverse-MTF list states other than the initial one (mtf_one() on a used sliding list)", "production block size 900000"])
+
+# ===== keep this section LAST: it derives obligations from everything registered above =====
+
+# ===== keep this section LAST: it derives obligations from everything registered above =====
+# ------------------------------------------------------------------------------- C08: the same harnesses with CBMC's UB checks on
+import copy as _copy
+_UB_BASES = ["symbol_step_eob", "symbol_step_byte", "symbol_step_runa", "emit_step", "delta_window", "delta_start", "tree_symbol_L5_W2_A5", "emit_crc_n4", "parse_nw3_blk1", "parse_nw3_ecrc2", "parse_nw3_stream1",
+             "collect_len1_m9_all", "collect_len2_m6_rs3", "collect_inline_L5_s0f", "collect_inline_L5_s07", "xread_fill", "xwrite_short",
+             "reorder_checks", "parse_finish", "heap_ops", "rg_transmit", "rg_collect", "rg_reorder", "dfa_big", "sniff"]
+_UB_QUICK = ["symbol_step_eob", "symbol_step_byte", "symbol_step_runa", "delta_window", "delta_start", "tree_symbol_L5_W2_A5", "parse_nw3_blk1", "collect_len1_m9_all", "collect_inline_L5_s07", "xread_fill", "xwrite_short",
+             "reorder_checks", "parse_finish", "heap_ops", "rg_transmit", "rg_collect", "rg_reorder", "dfa_big", "sniff"]
+for _o in list(OBLIGATIONS):
+    if _o.name in _UB_BASES:
+        _u = _copy.copy(_o)
+        _u.name = _o.name + "_ub"
+        _u.ub = True
+        _u.props = {"C08": "quick" if _o.name in _UB_QUICK else "thorough"}
+        if _o.name.startswith("symbol_step"):
+            _u.props["C07"] = "quick"      # "never crashes" on overrunning blocks
+        _u.timeout = 900
+        _u.bounds = _o.bounds + "; run with CBMC's standard checks (array bounds, pointer validity incl. use after free, signed overflow, undefined shifts, division by zero) in addition to the functional assertions"
+        _u.outside = list(_o.outside) + ["pointer-overflow (forming an out-of-bounds pointer without dereferencing it) is not checked", "decisions on uninitialised memory are visible only as functional failures of the twin obligation"]
+        OBLIGATIONS.append(_u)
+
